@@ -170,7 +170,6 @@ func matchAny(k string, pats []string) bool {
 	return false
 }
 
-
 // cmdCalls lists the callees of the named functions (development aid).
 func cmdCalls(args []string) {
 	e, err := load("/repo", "/verif", strings.Split(args[0], ","))
